@@ -293,10 +293,16 @@ func (w *walker) walkFile(f *ast.File) {
 			// defines map races (any write concurrent with any other access of the same map)
 			if w.isMap(v.X) {
 				w.wrapMap(v.X, w.mapW[v])
+			} else if w.isSlice(v.X) && !w.skip[v] {
+				// s[i]: the element, by its address (slice elements are always addressable)
+				w.wrapElem(v, w.mapW[v])
 			}
 		case *ast.RangeStmt:
 			if w.isMap(v.X) {
 				w.wrapMap(v.X, false)
+			} else if w.isSlice(v.X) && v.Value != nil {
+				// for _, e := range s: every element is read
+				w.wrapSliceRead(v.X)
 			}
 		case *ast.CallExpr:
 			if id, ok := v.Fun.(*ast.Ident); ok && len(v.Args) > 0 {
@@ -312,6 +318,47 @@ func (w *walker) walkFile(f *ast.File) {
 		}
 		return true
 	})
+}
+
+func (w *walker) isSlice(e ast.Expr) bool {
+	tv, ok := w.info.Types[e]
+	if !ok || tv.Type == nil {
+		return false
+	}
+	_, is := tv.Type.Underlying().(*types.Slice)
+	return is
+}
+
+// wrapElem wraps s[i] as (*__vs.R(&s[i], site)) / (*__vs.W(&s[i], site)).
+func (w *walker) wrapElem(ix *ast.IndexExpr, write bool) {
+	start := w.fset.Position(ix.Pos())
+	end := w.fset.Position(ix.End())
+	if start.Filename != w.file {
+		return
+	}
+	id := len(*w.sites)
+	*w.sites = append(*w.sites, site{ID: id, File: filepath.Base(w.file), Line: start.Line, Expr: string(w.src[start.Offset:end.Offset]), Field: "element of " + string(w.src[start.Offset:w.fset.Position(ix.X.End()).Offset]), Write: write})
+	fn := "R"
+	if write {
+		fn = "W"
+	}
+	span := end.Offset - start.Offset + 2
+	w.inss = append(w.inss, ins{off: start.Offset, text: "(*__vs." + fn + "(&", open: true, depth: span})
+	w.inss = append(w.inss, ins{off: end.Offset, text: fmt.Sprintf(", %d))", id), open: false, depth: span})
+}
+
+// wrapSliceRead wraps the slice of a range statement as __vs.SR(s, site): every element is marked read, s is returned.
+func (w *walker) wrapSliceRead(e ast.Expr) {
+	start := w.fset.Position(e.Pos())
+	end := w.fset.Position(e.End())
+	if start.Filename != w.file {
+		return
+	}
+	id := len(*w.sites)
+	*w.sites = append(*w.sites, site{ID: id, File: filepath.Base(w.file), Line: start.Line, Expr: string(w.src[start.Offset:end.Offset]), Field: "elements of " + string(w.src[start.Offset:end.Offset]), Write: false})
+	span := end.Offset - start.Offset + 1
+	w.inss = append(w.inss, ins{off: start.Offset, text: "__vs.SR(", open: true, depth: span})
+	w.inss = append(w.inss, ins{off: end.Offset, text: fmt.Sprintf(", %d)", id), open: false, depth: span})
 }
 
 func (w *walker) isMap(e ast.Expr) bool {
